@@ -1539,6 +1539,9 @@ def create_pipes(net, from_junctions, to_junctions, std_type, length_km,
         if k is not None:
             pipe_parameters["k_mm"] = k
 
+    if geodata is not None:
+        geodata = _prepare_multiple_branch_geodata(net, "pipe", geodata, index)
+
     entries = {"name": name, "from_junction": from_junctions, "to_junction": to_junctions,
                "std_type": std_type, "length_km": length_km,
                "inner_diameter_mm": pipe_parameters["inner_diameter_mm"],
@@ -1644,6 +1647,8 @@ def create_pipes_from_parameters(net, from_junctions, to_junctions, length_km,
         raise UserWarning('you have defined a std_type, however, using this function you can only '
                           'create a pipe setting specific, individual parameters. If you want to '
                           'create a pipe from net.std_types, please use `create_pipe`')
+    if geodata is not None:
+        geodata = _prepare_multiple_branch_geodata(net, "pipe", geodata, index)
     _set_multiple_entries(net, "pipe", index, **entries, **kwargs)
 
     if geodata is not None:
@@ -2060,10 +2065,9 @@ def _check_std_type(net, std_type, table, function_name):
                           'one' % (std_type, table))
 
 
-def _add_multiple_branch_geodata(net, table, geodata, index):
-    geo_table = f"{table}_geodata"
-    dtypes = net[geo_table].dtypes
-    df = pd.DataFrame(index=index, columns=net[geo_table].columns)
+def _prepare_multiple_branch_geodata(net, table, geodata, index):
+    # builds the new geodata rows without touching the net (malformed geodata is rejected here)
+    df = pd.DataFrame(index=index, columns=net[f"{table}_geodata"].columns)
     # works with single or multiple lists of coordinates
     if len(geodata[0]) == 2 and not hasattr(geodata[0][0], "__iter__"):
         # geodata is a single list of coordinates
@@ -2071,6 +2075,14 @@ def _add_multiple_branch_geodata(net, table, geodata, index):
     else:
         # geodata is multiple lists of coordinates
         df["coords"] = geodata
+    return df
+
+
+def _add_multiple_branch_geodata(net, table, geodata, index):
+    geo_table = f"{table}_geodata"
+    dtypes = net[geo_table].dtypes
+    df = geodata if isinstance(geodata, pd.DataFrame) else \
+        _prepare_multiple_branch_geodata(net, table, geodata, index)
 
     net[geo_table] = pd.concat([net[geo_table],df], sort=False)
 
